@@ -13,13 +13,6 @@ def finding(props, rule, key, what, sig=None, n=None):
 finding(["C07","C06"], "M2", "tensor.(StdEng).*[incr,*one-element]",
         "E.<Op>Incr scalar-scalar arm computes into operand a before adding: Add([2],[3],WithIncr([10])) leaves a=[5]",
         "writes operand A, which is not the destination of incr mode", 37)
-for sig in ["E.OpIter: buffer F1 is indexed through iterator bit, which belongs to A",
-            "E.OpIter: buffer R is indexed through iterator bit, which belongs to A",
-            "E.OpSameIter: buffer F1 is indexed through iterator bit, which belongs to A",
-            "E.OpSameIter: buffer R is indexed through iterator bit, which belongs to A"]:
-    finding(["C07","C11","C06"], "M3", "tensor.(StdEng).*Scalar[*scalar-left*iter]",
-            "comparison/min-max with the scalar on the left, same-type result, iterator path: the result buffer is indexed through the operand's iterator (bit): Gt(5, a[:,1], AsSameType()) panics index out of range",
-            sig, 35)
 ALIAS = "reuse tensor aliasing the second operand: the copy of A into reuse clobbers B before it is read: Sub(aT,bT,WithReuse(bT)) = 0, Gt(c,d,AsSameType(),WithReuse(d)) = 0, MinBetween(e,f,WithReuse(f)) = e"
 finding(["C07","C06"], "M2", "tensor.(StdEng).*[reuse,iter,R=B]", ALIAS + " (arithmetic: iterator path only)", "returned buffer holds Op(A,A), want Op(A,B)", 45)
 finding(["C07","C06"], "M2", "tensor.(StdEng).*Between[reuse,raw,R=B]", ALIAS + " (min/max: raw path too)", "returned buffer holds Op(A,A), want Op(A,B)", 45)
@@ -78,6 +71,7 @@ finding(["C14"], "F1", "tensor.numpyDtypes[Int32]", "GOARCH=386: Int32 is writte
 finding(["C14"], "F1", "tensor.numpyDtypes[Uint32]", "GOARCH=386: Uint32 is written as u4, which the reader maps to Uint", "Uint32->u4->Uint", 43)
 
 FIXED = [
+ {"property":"C11","commit":"9aa1df2","rule":"M3","key":"tensor.(StdEng).*Scalar[*scalar-left*iter]","what":"fixed: property=C11 9aa1df2 comparison/min-max with the scalar on the left, same-type result, iterator path: the result buffer was indexed through the operand's iterator (bit): Gt(5, a[:,1], AsSameType()) panicked index out of range (DESIGN finding 35)"},
  {"property":"C11","commit":"74195dd","rule":"M2","key":"tensor.(StdEng).*Scalar[unsafe,scalar-left,*one-element]","what":"fixed: property=C11 74195dd comparison with the scalar on the left, unsafe, one-element tensor: E.<Cmp>Same(S,T) wrote the scalar's header and nothing copied it back: Gt(5,[3],UseUnsafe()) returned [3] (DESIGN finding 42)"},
  {"property":"C07","commit":"abfb221","rule":"M2","key":"tensor.(StdEng).*Between*[unsafe*","what":"fixed: property=C07 abfb221 MinBetween/MaxBetween(+Scalar) with UseUnsafe(): the result tensor was created before the mode switch, so the unsafe case was unreachable and the call panicked \"Unreachable\" (DESIGN finding 34)"},
  {"property":"C19","commit":"393a6d7","rule":"O8","key":"tensor.(*Dense).ShallowClone#store1","what":"fixed: property=C19 393a6d7 ShallowClone shared old (and transposeWith) with the source: s := a.ShallowClone(); s.UT(); a.UT() put one slice in the pool twice (DESIGN finding 33)"},
